@@ -5,6 +5,7 @@ import (
 	"math"
 	"os"
 	"path/filepath"
+	"runtime"
 
 	"github.com/lindb/roaring"
 
@@ -19,6 +20,10 @@ import (
 	"github.com/lindb/lindb/series/field"
 	"github.com/lindb/lindb/tsdb/tblstore/metricsdata" // its init registers MetricDataMerger with kv
 )
+
+// mergerType is the merger the family is created with: the real registration of the metricsdata package, or (child
+// processes of the roll-over part) a wrapper that delegates to metricsdata.NewMerger and only marks a panic.
+var mergerType = string(metricsdata.MetricDataMerger)
 
 // world = one real kv.Store with one real data family using the real metric data merger.
 type world struct {
@@ -38,7 +43,7 @@ func newWorld(dir string, mfs uint32, thr int) (*world, error) {
 	}
 	// the options of tsdb/segment.go (CompactThreshold 0, merger MetricDataMerger) + MaxFileSize of the case
 	family, err := store.CreateFamily("f", kv.FamilyOption{
-		Merger:           string(metricsdata.MetricDataMerger),
+		Merger:           mergerType,
 		CompactThreshold: thr,
 		MaxFileSize:      mfs,
 	})
@@ -152,6 +157,10 @@ func (w *world) flush(blocks []Block) error {
 
 // compact triggers the family's compaction and waits for the background job.
 func (w *world) compact() {
+	// family.compact() clears its "compacting" flag after releasing the wait group: own that window
+	for !kv.VerifFamilyIdle(w.family) {
+		runtime.Gosched()
+	}
 	if w.thr > 0 {
 		kv.VerifStoreCompact(w.store) // periodic job body: needCompact() -> compact()
 	} else {
